@@ -40,7 +40,9 @@ Inductive case :=
 | CBoundary (roi : roi2) (n : nat) (expect : list (Q * Q))
 | CReproj (c : consts) (ss ds : shape2) (A F : affine) (ttol stol : Q)
           (padding align : option Z) (cmp_scale : bool) (expect : res rinfo)
-| CReprojNL (c : consts) (back fwd : ptab) (sc : res (Q * Q)) (ss ds : shape2)
+(** [sc_at]: the destination point at which the implementation sampled the local scale
+    (get_scale_at_point), [sc] the value it obtained there; the oracle answers only at that point *)
+| CReprojNL (c : consts) (back fwd : ptab) (sc_at : Q * Q) (sc : res (Q * Q)) (ss ds : shape2)
             (padding align : option Z) (expect : res rinfo).
 
 Definition check (c : case) : bool :=
@@ -59,7 +61,8 @@ Definition check (c : case) : bool :=
   | CBoundary roi n e => list_eqb qq_eqb (boundary_pts roi n) e
   | CReproj c ss ds A F ttol stol p al cmp e =>
       res_eqb (info_eqb cmp) (reproject_linear c ss ds A F ttol stol p al) e
-  | CReprojNL c back fwd sc ss ds p al e =>
+  | CReprojNL c back fwd sc_at sc ss ds p al e =>
       res_eqb (info_eqb true)
-              (reproject_nonlinear c (tab_fn back) (tab_fn fwd) (fun _ => sc) ss ds p al) e
+              (reproject_nonlinear c (tab_fn back) (tab_fn fwd)
+                                   (fun pt => if qq_eqb pt sc_at then sc else Err EOther) ss ds p al) e
   end.
